@@ -34,6 +34,13 @@ CHECKS = {
         note="Trusted: flat type abstraction, expression arena stub (get_value/get_double_value carry the real asserts), induction over tree height, Document::accept's traversal (visitTemplate's gate checked structurally), DocumentVisitor dispatch. Arrays of clocks/channels are covered to nesting depth 1 (bounded in that dimension).",
         technique="one-level induction step per visitor on sliced real code with ghost summaries, assume/call/assert harness in CBMC; native replay through parse_XTA + get_supported_methods",
     ),
+    "C11": dict(
+        category="proof",
+        text="(1) The REAL expression_t::collect_possible_writes / get_symbols / changes_any_variable / changes_variable (and the read-side twins) are executed one level deep on symbolic nodes whose children carry arbitrary ghost symbol sets: the result is exactly input U W(e), with W from the statement (15 assignment/increment kinds contribute the target's lvalue symbols; calls contribute the callee's summary and the arguments at non-const reference positions). (2) Each of the 19 `changes_any_variable()` gates of typechecker.cpp (guard, invariant, sync, probability, initialisers, IO/priority indices, LSC labels, instantiation argument, assert, quantifier bodies, property, checkPredicate, checkMonitoredExpr) is sliced as its real if-chain / function / clause and executed with the gated expression's W != {} ghost: an error must be recorded. Unbounded in tree depth (induction step).",
+        design_ref="DESIGN.md section 4, C11",
+        note="Trusted: bit-mask model of std::set<symbol_t> (8 symbols), flat type abstraction, stub TypeChecker environment (checkExpression / isCompileTimeComputable by ghost), induction meta-step. NOT under contract: TypeChecker::visitFunction's computation of function_t::changes and the statement visitors behind it (virtual dispatch), and that every context of the statement reaches a gate (traversal). Array sizes and range bounds have no side-effect gate of their own; they are protected only through the compile-time-computability check (C13).",
+        technique="one-level induction steps with ghost set summaries + per-gate slices of the real if-chains, assume/call/assert harnesses in CBMC; native replay through parse_XTA",
+    ),
 }
 
 NOT_APPLICABLE = {
